@@ -28,7 +28,7 @@ MANIFEST_ENTRY = {
             "alignments 0..15) on lengths 0..300 x offsets 0..3 x splits against the Lean spec; the default mask policy is observed "
             "on real client/server protocol objects.",
     "note": "Trusted: Lean kernel; the hand-written models mirror the code (checked only by the differential run); gcc/SSE2/cffi. "
-            "Wire policy (mask bit, one key per frame) is an observation on generated API sequences, not a theorem.",
+            "Wire policy: default_mask_policy (Proofs/C01.lean: by default a client masks every frame with a fresh key from the key stream and a server none) and send_recv_roundtrip (masked frames are unmasked to the payload sent) are theorems on the engine model; that the real code draws one key per frame is observed on generated API sequences.",
 }
 
 
